@@ -60,3 +60,29 @@ package meta
 //@   ensures [failure-changes-nothing] err != nil ==> storeDom == old(storeDom) && (forall t string, m string :: hasC(r, t, m) == old(hasC(r, t, m)) && hasP(r, t, m) == old(hasP(r, t, m)))
 //@   ensures wfMeta(r)
 //@   panics never
+
+// ---- C17: reloading from the store reproduces the in-memory state ------------------------------------------------
+// Starting from an empty memory, after a successful Reload a (task, message) is in memory as a collection drop exactly
+// if the store holds a collection-drop record under its key, with the same recorded shards and target (same for
+// partition drops).
+//@ spec emptyMeta(r *ReplicateMeteImpl) bool = (forall t string :: {mhas(r.dropCollectionMsgs, t)} !(t in r.dropCollectionMsgs)) && (forall t string :: {mhas(r.dropPartitionMsgs, t)} !(t in r.dropPartitionMsgs))
+//@ spec loadedIfC(r *ReplicateMeteImpl, msgs []api.MetaMsg, n int) bool = forall j int :: {at(j)} 0 <= j && j <= n && msgs[at(j)].Type == api.DropCollectionMetaMsgType ==> hasC(r, msgs[at(j)].Base.TaskID, msgs[at(j)].Base.MsgID)
+//@ spec loadedOnlyIfC(r *ReplicateMeteImpl, msgs []api.MetaMsg, n int) bool = forall t string, m string :: {mhas(mget(r.dropCollectionMsgs, t), m)} hasC(r, t, m) ==> (exists j int :: {msgs[j]} 0 <= j && j <= n && msgs[j].Type == api.DropCollectionMetaMsgType && msgs[j].Base.TaskID == t && msgs[j].Base.MsgID == m && r.dropCollectionMsgs[t][m].Base == msgs[j].Base)
+//@ spec loadedIfP(r *ReplicateMeteImpl, msgs []api.MetaMsg, n int) bool = forall j int :: {at(j)} 0 <= j && j <= n && msgs[at(j)].Type == api.DropPartitionMetaMsgType ==> hasP(r, msgs[at(j)].Base.TaskID, msgs[at(j)].Base.MsgID)
+//@ spec loadedOnlyIfP(r *ReplicateMeteImpl, msgs []api.MetaMsg, n int) bool = forall t string, m string :: {mhas(mget(r.dropPartitionMsgs, t), m)} hasP(r, t, m) ==> (exists j int :: {msgs[j]} 0 <= j && j <= n && msgs[j].Type == api.DropPartitionMetaMsgType && msgs[j].Base.TaskID == t && msgs[j].Base.MsgID == m && r.dropPartitionMsgs[t][m].Base == msgs[j].Base)
+//@ func (*ReplicateMeteImpl).Reload
+//@   props C17
+//@   requires wfMeta(r) && emptyMeta(r)
+// Reload runs on a new object that nobody else can reach yet (its only caller is the constructor NewReplicateMetaImpl):
+// it needs no lock - modelled as "the lock is held"
+//@   assumes locked(r.metaLock)
+//@   ensures [a-collection-drop-in-memory-is-the-stored-record] err == nil ==> (forall t string, m string :: {mhas(mget(r.dropCollectionMsgs, t), m)} hasC(r, t, m) ==> mkey(t, m) in storeDom && storeVal[mkey(t, m)].Type == api.DropCollectionMetaMsgType && r.dropCollectionMsgs[t][m].Base == storeVal[mkey(t, m)].Base)
+//@   ensures [every-stored-collection-drop-is-in-memory] err == nil ==> (forall k string :: {storeVal[k]} k in storeDom && storeVal[k].Type == api.DropCollectionMetaMsgType ==> hasC(r, storeVal[k].Base.TaskID, storeVal[k].Base.MsgID))
+//@   ensures [a-partition-drop-in-memory-is-the-stored-record] err == nil ==> (forall t string, m string :: {mhas(mget(r.dropPartitionMsgs, t), m)} hasP(r, t, m) ==> mkey(t, m) in storeDom && storeVal[mkey(t, m)].Type == api.DropPartitionMetaMsgType && r.dropPartitionMsgs[t][m].Base == storeVal[mkey(t, m)].Base)
+//@   ensures [every-stored-partition-drop-is-in-memory] err == nil ==> (forall k string :: {storeVal[k]} k in storeDom && storeVal[k].Type == api.DropPartitionMetaMsgType ==> hasP(r, storeVal[k].Base.TaskID, storeVal[k].Base.MsgID))
+//@   ensures [the-store-is-only-read] storeDom == old(storeDom) && storeVal == old(storeVal)
+//@   loop 1 invariant [well-formed] wfMeta(r) && storeDom == old(storeDom) && storeVal == old(storeVal) && preservedArrays(api.MetaMsg)
+//@   loop 1 invariant [listed-collection-drops-are-in-memory] loadedIfC(r, metaMsgs, rangeindex)
+//@   loop 1 invariant [collection-drops-in-memory-were-listed] loadedOnlyIfC(r, metaMsgs, rangeindex)
+//@   loop 1 invariant [listed-partition-drops-are-in-memory] loadedIfP(r, metaMsgs, rangeindex)
+//@   loop 1 invariant [partition-drops-in-memory-were-listed] loadedOnlyIfP(r, metaMsgs, rangeindex)
